@@ -207,7 +207,7 @@ def main(tier, seed):
     lib.build_coq()
     lib.build_driver()
     lib.build_harness()
-    n = lib.ncases(150 if tier == "quick" else 3000)
+    n = lib.ncases(150 if tier == "quick" else 15000)
     rng = random.Random(seed)
     d = lib.casedir(PID)
     gen = [instgen.gen_instance(rng, {"slots": rng.choice(["some", "some", "none"]),
@@ -222,7 +222,7 @@ def main(tier, seed):
     pres = lib.pmap(lambda a: solve.run_solve(d, "p%d" % a[0], a[1]),
                     list(enumerate([instgen.gen_instance(rng, {"slots": "some", "maxdist": rng.choice(["small", "mid"]),
                                                                "ndeps": rng.choice([4, 5, 6])})
-                                    for _ in range(40 if tier == "quick" else 600)])))
+                                    for _ in range(40 if tier == "quick" else 2000)])))
     extra_bad = []
     pipeline_transitions = 0
     for r in pres:
